@@ -1,9 +1,156 @@
+import SwayVerif.Model.Asm
+import SwayVerif.Model.AsmOpt
+import SwayVerif.Driver.AsmText
 import SwayVerif.Driver.Util
-/-! Driver for C07 (stub — replace `answer`; keep `run`). -/
-namespace SwayVerif.Driver.C07
-open SwayVerif.Driver
+/-!
+Driver for C07 (assembly-level optimisations). Cases (see `harness/src/bin/sv_c07.rs`):
 
-def answer (_line : String) : String := "unimplemented agree=0 prop=0"
+* `pass <dce|cfg|seqjump|moves|ops> <before> ;; ok <after> src=<syn|harvest|corpus>` | `;; panic src=..`
+  agree = the model pass applied to `<before>` gives exactly `<after>` (kind, defs, uses, def_const,
+  side effect, and the successors recomputed by the model);
+  prop  = the proved checker of that pass (`validDeleteAuto`, `validUnreach`, `validSeqJumpAuto`,
+  `validMoves`) accepts the REAL before/after pair. For synthetic op lists (`src≠harvest`) the
+  checker is only demanded when the input satisfies `flagsLocal` (flag registers are read by the op
+  right after the one that sets them — what compiled code does; see `C07_flags_guard_insufficient`)
+  and has no duplicate label.
+* `round <0|1> <before> ;; ok <after>`: prop = the round loop never returns a longer op list (level 1).
+* `prog <pkg> <test> <profile> ;; opt=<digest> noopt=<digest> …`: prop = the digests are equal.
+-/
+namespace SwayVerif.Driver.C07
+open SwayVerif.Driver SwayVerif.Driver.AsmText SwayVerif.Asm SwayVerif.AsmOpt
+
+def get (kv : List (String × String)) (k : String) : Option String := kv.lookup k
+
+def sizeClass (n : Nat) : String :=
+  if n < 16 then "lt16" else if n < 64 then "lt64" else if n < 256 then "lt256" else "ge256"
+
+/-- ops agree in everything the passes look at (registers as sets) -/
+def sameOp (a b : AOp) : Bool :=
+  a.kind == b.kind && canonSet a.defs == canonSet b.defs && canonSet a.uses == canonSet b.uses
+    && canonSet a.defConst == canonSet b.defConst && a.sideEffect == b.sideEffect
+
+def sameList (a b : List AOp) : Bool :=
+  a.length == b.length && (a.zip b).all fun x => sameOp x.1 x.2
+
+def sameListSucc (a b : List AOp) : Bool :=
+  sameList a b && (a.zip b).all fun x => x.1.succ == x.2.succ
+
+/-- masks `ks` with `filterMask P ks ≈ Q`: match each op of `Q` with the earliest possible op of `P` -/
+def alignEarliest : List AOp → List AOp → List Bool
+  | [], _ => []
+  | _ :: ps, [] => false :: alignEarliest ps []
+  | p :: ps, q :: qs => if sameOp p q then true :: alignEarliest ps qs else false :: alignEarliest ps (q :: qs)
+
+/-- … with the latest possible op -/
+def alignLatest (P Q : List AOp) : List Bool := (alignEarliest P.reverse Q.reverse).reverse
+
+def isSubMask (P Q : List AOp) (ks : List Bool) : Bool := sameList (filterMask P ks) Q
+
+/-- the flag registers are read only by the op right after one that sets them -/
+def flagsLocal (P : List AOp) : Bool :=
+  let flags : List Reg := [.const 2, .const 8]
+  let rec go : Option AOp → List AOp → Bool
+    | _, [] => true
+    | prev, op :: rest =>
+      (flags.all fun f => !op.uses.contains f || match prev with
+        | some p => p.defConst.contains f
+        | none => false) && go (some op) rest
+  go none P
+
+/-- no label number occurs twice -/
+def labelsUnique (P : List AOp) : Bool :=
+  let ls := P.filterMap fun op => match op.kind with
+    | .label l => some l
+    | _ => none
+  (sortNats ls) == dedupSorted (sortNats ls)
+
+def modelPass (name : String) (P : List AOp) : Option (List AOp) :=
+  match name with
+  | "dce" => dce P
+  | "cfg" => simplifyCfg P
+  | "seqjump" => some (removeSequentialJumps P)
+  | "moves" => some (removeRedundantMoves P)
+  | "ops" => some (removeRedundantOps P)
+  | _ => none
+
+def modelMask (name : String) (P : List AOp) : Option (List Bool) :=
+  match name with
+  | "dce" => dceMask? P
+  | "cfg" => simplifyCfgMask? P
+  | "ops" => some (redundantOpsMask P)
+  | _ => none
+
+/-- the checker of pass `name` on the real pair -/
+def validPass (name : String) (P Q : List AOp) (agreeMask : Option (List Bool)) : Bool :=
+  let masks : List (List Bool) :=
+    (match agreeMask with | some ks => [ks] | none => []) ++ [alignEarliest P Q, alignLatest P Q]
+  match name with
+  | "dce" | "ops" => masks.any fun ks => isSubMask P Q ks && validDeleteAuto ambReal P ks
+  | "cfg" => masks.any fun ks => isSubMask P Q ks && validUnreach P ks
+  | "seqjump" => validSeqJumpAuto ambReal P Q
+  | "moves" => validMoves ambReal P Q
+  | _ => false
+
+def answerPass (c : List String) (i : List String) : String :=
+  match c with
+  | [name, before] =>
+    let kv := kvOf i
+    let src := (get kv "src").getD "?"
+    match parseOps? before with
+    | none => "bad-ops agree=0 prop=1"
+    | some P0 =>
+      let P := P0.map core
+      let info := s!"pass={name} src={src} size={sizeClass P.length}"
+      let m := modelPass name P
+      match i with
+      | "ok" :: after :: _ =>
+        match parseOps? after with
+        | none => s!"bad-after agree=0 prop=1 {info}"
+        | some Q0 =>
+          let Q := Q0.map core
+          let agree := match m with
+            | some R => (match withSucc R with
+              | some R' => sameListSucc R' Q0
+              | none => false)
+            | none => false
+          let mk := match m, modelMask name P with
+            | some R, some ks => if sameList R Q then some ks else none
+            | _, _ => none
+          let valid := validPass name P Q mk
+          let pre := flagsLocal P && labelsUnique P
+          let prop := valid || (src != "harvest" && !pre)
+          let changed := !(sameList P Q)
+          s!"ok agree={b01 agree} prop={b01 prop} valid={b01 valid} pre={b01 pre} changed={b01 changed} removed={sizeClass (P.length - Q.length)} {info}"
+      | "panic" :: _ => s!"panic agree={b01 m.isNone} prop=1 res=panic {info}"
+      | _ => s!"bad-impl agree=0 prop=1 {info}"
+  | _ => "bad-case agree=0 prop=1"
+
+def answerRound (c : List String) (i : List String) : String :=
+  match c, i with
+  | [lvl, before], "ok" :: after :: _ =>
+    match parseOps? before, parseOps? after with
+    | some P, some Q =>
+      let ok := lvl != "1" || decide (Q.length ≤ P.length)
+      s!"round agree=1 prop={b01 ok} lvl={lvl} shrunk={b01 (decide (Q.length < P.length))} size={sizeClass P.length}"
+    | _, _ => "bad-ops agree=0 prop=1"
+  | _, _ => "bad-case agree=0 prop=1"
+
+def answerProg (c : List String) (i : List String) : String :=
+  let kv := kvOf i
+  match c, get kv "opt", get kv "noopt" with
+  | [_pkg, test, profile], some a, some b =>
+    let st := (get kv "state").getD "?"
+    let stc := if st.startsWith "revert" then "revert" else st
+    s!"prog agree=1 prop={b01 (a == b)} profile={profile} state={stc} panic={b01 ((get kv "panic").getD "-" != "-")} logs={b01 ((get kv "nlogs").getD "0" != "0")} build={b01 (test != "@build")}"
+  | _, _, _ => "bad-case agree=0 prop=1"
+
+def answer (line : String) : String :=
+  let (c, i) := splitCase line
+  match c with
+  | "pass" :: rest => answerPass rest i
+  | "round" :: rest => answerRound rest i
+  | "prog" :: rest => answerProg rest i
+  | _ => "bad-op agree=0 prop=0"
 
 def run : IO Unit := do
   lineLoop (← IO.getStdin) (← IO.getStdout) answer
